@@ -10,13 +10,13 @@ ENGINE = 'detsched'
 TECHNIQUE = 'runtime monitoring: random subscribe/publish histories against an identity-keyed registry model; delivery threads interleaved by a deterministic cooperative scheduler; exactly-once / no-phantom checker at quiescence'
 RULE = ('random histories of subscribe / publish calls over 2-5 queues (plain deques that are EQUAL BY CONTENT, deques with maxlen, '
         'LockingDeques), 1-4 signals, fifo and lifo subscriptions, repeated subscriptions in every position, subscription by Event and by '
-        'signal number, issued by the harness thread while the two real delivery threads are interleaved by detsched (random / PCT); at '
+        'signal number, issued by the harness thread (a fifth of the subscriptions by 2-3 threads at once, for the same queue, signal and kind) while the two real delivery threads are interleaved by detsched (random / PCT); at '
         'quiescence every unique-id publication must be in a queue exactly once per subscription kind that was registered before the '
         'publish call, at most once more per kind registered later (it may still have been in transit), and never in a queue that did '
         'not subscribe to its signal. distinct_nontrivial = distinct (queues, signals, history shape) tuples with a repeated subscription')
 CASES = {'quick': 2500, 'thorough': 150000}
 BUDGET = {'quick': 150, 'thorough': 300}
-REQUIRE = {'histories': 1000, 'repeated_subscriptions': 1000, 'publications_checked': 8000, 'histories_with_equal_queues': 500}
+REQUIRE = {'histories': 1000, 'repeated_subscriptions': 1000, 'publications_checked': 8000, 'histories_with_equal_queues': 500, 'concurrent_subscriptions_of_one_queue': 1000}
 ASSUME = ['the fabric is running; capacities are large enough for every publication']
 ANNOUNCE_CASES = True
 
@@ -31,6 +31,9 @@ def run_case(ctx, n):
   for _ in range(rng.randint(6, 30)):
     if rng.random() < 0.55:
       ops.append(('sub', rng.randrange(nq), rng.choice(sigs), rng.choice(['fifo', 'fifo', 'lifo', None]), rng.random() < 0.3))
+      if rng.random() < 0.2:
+        # the same subscription made by 2-3 threads AT ONCE (e.g. an object's own thread and the main thread)
+        ops[-1] = ops[-1] + (rng.randint(2, 3),)
     else:
       uid += 1
       ops.append(('pub', uid, rng.choice(sigs + ['F_NOBODY']), rng.choice([None, 1, 5, 1000])))
@@ -55,10 +58,18 @@ def run_case(ctx, n):
       fabric.start()
       for j, op in enumerate(ops):
         if op[0] == 'sub':
-          _, qi, sig, kind, by_number = op
+          _, qi, sig, kind, by_number = op[:5]
           ev = Event(signal=sig)
           arg = ev.signal if by_number else ev
-          if kind is None:
+          if len(op) > 5:
+            ctx.count('concurrent_subscriptions_of_one_queue')
+            kw = {} if kind is None else {'queue_type': kind}
+            ths = [ds.SThread(target=fabric.subscribe, args=(queues[qi], arg), kwargs=kw) for _ in range(op[5])]
+            for t in ths:
+              t.start()
+            for t in ths:
+              t.join()
+          elif kind is None:
             fabric.subscribe(queues[qi], arg)
           else:
             fabric.subscribe(queues[qi], arg, queue_type=kind)
